@@ -228,3 +228,16 @@ package keeper
 //@ ensures [value_encodes_recipient_sender_and_amount] err == nil ==> hexdec(aggregate.AggregateValue) == abienc("address,string,uint256,uint256", ethaddr(bytes(recipient)), accstr(sender), amount.Amount, 0) && ishexbytes(aggregate.AggregateValue)
 //@ ensures [unflagged_with_the_power_of_the_whole_bonded_set] err == nil ==> !aggregate.Flagged && aggregate.ReporterPower == staking.bonded
 //@ ensures [reads_only] nothing_written()
+
+// ---- the snapshot a validator signs for a report (C15, C17) ----
+// enc(p): the value CreateSnapshot passed to EncodeOracleAttestationData for parameter p.
+//@ func (k Keeper).CreateSnapshot(ctx, queryId, timestamp, isExternalRequest) (err)
+//@ requires [times_not_before_1970] unixms(timestamp) >= 0 && unixms(blocktime(ctx)) >= 0
+//@ requires [stored_timestamps_fit_int64] forall t int :: has(oracle.Aggregates, pair(bytes(queryId), t)) ==> t < 9223372036854775808
+//@ modifies bridge.*, H_*, A_*
+//@ ensures [digest_is_taken_over_this_reports_value_power_and_time] called(EncodeOracleAttestationData) ==> arg(EncodeOracleAttestationData, timestamp) == unixms(timestamp) && arg(EncodeOracleAttestationData, value) == ret(GetAggregateByTimestamp, 0).AggregateValue && arg(EncodeOracleAttestationData, aggregatePower) == ret(GetAggregateByTimestamp, 0).ReporterPower && arg(EncodeOracleAttestationData, attestationTimestamp) == unixms(blocktime(ctx))
+//@ ensures [digest_names_the_previous_report_or_zero] called(EncodeOracleAttestationData) && (ret(GetTimestampBefore, 1) == nil ==> unixms(ret(GetTimestampBefore, 0)) >= 0) ==> arg(EncodeOracleAttestationData, previousTimestamp) == (ret(GetTimestampBefore, 1) == nil ? unixms(ret(GetTimestampBefore, 0)) : 0)
+//@ ensures [digest_names_the_next_report_or_zero] called(EncodeOracleAttestationData) && (ret(GetTimestampAfter, 1) == nil ==> unixms(ret(GetTimestampAfter, 0)) >= 0) ==> arg(EncodeOracleAttestationData, nextTimestamp) == (ret(GetTimestampAfter, 1) == nil ? unixms(ret(GetTimestampAfter, 0)) : 0)
+//@ ensures [digest_is_bound_to_the_current_validator_checkpoint] called(EncodeOracleAttestationData) ==> bytes(arg(EncodeOracleAttestationData, valsetCheckpoint)) == bytes(ret(GetValidatorCheckpointFromStorage, 0).Checkpoint) && bytes(arg(EncodeOracleAttestationData, queryId)) == bytes(queryId)
+//@ ensures [stored_snapshot_data_are_the_digest_inputs] err == nil ==> has(bridge.AttestSnapshotDataMap, bytes(ret(EncodeOracleAttestationData, 0))) && bridge.AttestSnapshotDataMap[bytes(ret(EncodeOracleAttestationData, 0))].Timestamp == unixms(timestamp) && bridge.AttestSnapshotDataMap[bytes(ret(EncodeOracleAttestationData, 0))].AttestationTimestamp == unixms(blocktime(ctx)) && bridge.AttestSnapshotDataMap[bytes(ret(EncodeOracleAttestationData, 0))].PrevReportTimestamp == arg(EncodeOracleAttestationData, previousTimestamp) && bridge.AttestSnapshotDataMap[bytes(ret(EncodeOracleAttestationData, 0))].NextReportTimestamp == arg(EncodeOracleAttestationData, nextTimestamp)
+//@ ensures [one_signature_slot_per_member_of_the_current_set] err == nil ==> has(bridge.SnapshotToAttestationsMap, bytes(ret(EncodeOracleAttestationData, 0))) && len(bridge.SnapshotToAttestationsMap[bytes(ret(EncodeOracleAttestationData, 0))].Attestations) == len(bridge.BridgeValset.BridgeValidatorSet)
